@@ -133,6 +133,16 @@ func tbsProtectedAlg(tbs []byte, idx int) (int64, bool) {
 	return v.Int64()
 }
 
+// c04Decode decodes from a buffer that its owner reuses as soon as the decoder has returned.
+func c04Decode(dst interface{ UnmarshalCBOR([]byte) error }, w []byte) error {
+	buf := append([]byte{}, w...)
+	err := dst.UnmarshalCBOR(buf)
+	for i := range buf {
+		buf[i] ^= 0x3c
+	}
+	return err
+}
+
 var c04Parent = &cose.Sign1Message{Headers: cose.Headers{Protected: cose.ProtectedHeader{}}, Payload: []byte("parent"), Signature: []byte{9, 9, 9}}
 
 // checkC04 runs one cell and compares with the model of the statement.
@@ -206,7 +216,7 @@ func checkC04(c c04Case) error {
 				w = append(w, c.unprotWire()...)
 				w = append(w, 0x43, 1, 2, 3)
 				var cs cose.Countersignature
-				if err := cs.UnmarshalCBOR(w); err != nil {
+				if err := c04Decode(&cs, w); err != nil {
 					stats.Class("skipped/undecodable-message")
 					return nil
 				}
@@ -214,7 +224,7 @@ func checkC04(c c04Case) error {
 				break
 			}
 			var m cose.Sign1Message
-			if err := m.UnmarshalCBOR(append([]byte{0xd2}, w...)); err != nil {
+			if err := c04Decode(&m, append([]byte{0xd2}, w...)); err != nil {
 				stats.Class("skipped/undecodable-message")
 				return nil
 			}
@@ -225,7 +235,7 @@ func checkC04(c c04Case) error {
 			w = append(w, c.unprotWire()...)
 			w = append(w, 0x43, 1, 2, 3)
 			var s cose.Signature
-			if err := s.UnmarshalCBOR(w); err != nil {
+			if err := c04Decode(&s, w); err != nil {
 				stats.Class("skipped/undecodable-message")
 				return nil
 			}
